@@ -18,12 +18,13 @@ import (
 
 // Case is a source text plus one stop point (0 = yield density only).
 type Case struct {
-	Src     string `json:"src"`
-	StopAt  int    `json:"stop_at"`
-	Endless bool   `json:"endless"`
-	Handler bool   `json:"handler,omitempty"`          // the stop point lies inside the delivery of a key event (TestHandlers)
-	Quiet   int    `json:"quiet_iterations,omitempty"` // iterations of loops whose body has no statement (no marker): each must still yield
-	Markers int    `json:"markers"`                    // loop iterations + calls predicted by the reference run (0 = unknown)
+	Src     string       `json:"src"`
+	StopAt  int          `json:"stop_at"`
+	Endless bool         `json:"endless"`
+	Summary *SummaryCase `json:"summary,omitempty"`          // TestSummary
+	Handler bool         `json:"handler,omitempty"`          // the stop point lies inside the delivery of a key event (TestHandlers)
+	Quiet   int          `json:"quiet_iterations,omitempty"` // iterations of loops whose body has no statement (no marker): each must still yield
+	Markers int          `json:"markers"`                    // loop iterations + calls predicted by the reference run (0 = unknown)
 }
 
 func isSummary(e string) bool {
@@ -138,6 +139,10 @@ func stop(c Case, full *fullRun) *h.Failure {
 }
 
 func checkCase(c Case) *h.Failure {
+	if c.Summary != nil {
+		fl, _ := checkSummary(*c.Summary)
+		return fl
+	}
 	if c.Handler {
 		fl, _, _ := checkHandler(c)
 		return fl
